@@ -35,6 +35,16 @@ prop("C16", [
                  "deplete is evaluated at the same clock reading as the check that granted it (single task; read-then-write race not modelled)"])
 
 
+prop("C03", [
+    dict(engine="verus", unit="dnsreply", fns=["DnsListenerHandler::create_in_reply"]),
+], explanation="create_in_reply: the client reply is the upstream reply under the client's id and question, for any number of records")
+
+prop("C04", [
+    dict(engine="verus", unit="dnsser"),
+    dict(engine="verus", unit="dnsreply", fns=["DnsListenerHandler::prepare_to_send", "run_udp_reply"]),
+    dict(engine="verus", unit="dnsparse", fns=["PktParser::get_dns"]),
+], explanation="size-limited serialiser contract; per-transport limit as emission-point precondition; advertised size floor 512 in the decoder")
+
 prop("C05", [
     dict(engine="verus", unit="dnsparse"),
     dict(engine="verus", unit="pktbuf"),
